@@ -67,6 +67,8 @@ func (x *Ctx) internalIndex(s, sub []byte) {
 	}
 	x.rawPair(fmt.Sprintf("i.rabinKarp\t%s\t%s", hexOrDash(s), hexOrDash(sub)),
 		itoa(strcase.VerifIndexRabinKarpUnicode(string(s), string(sub))), itoa(bytcase.VerifIndexRabinKarpUnicode(s, sub)))
+	x.rawPair(fmt.Sprintf("i.rabinKarpRev\t%s\t%s", hexOrDash(s), hexOrDash(sub)),
+		itoa(strcase.VerifIndexRabinKarpRevUnicode(string(s), string(sub))), itoa(bytcase.VerifIndexRabinKarpRevUnicode(s, sub)))
 	// bruteForceIndexUnicode indexes s while i < t <= len(s): callers never pass an empty haystack
 	if len(s) > 0 {
 		x.rawPair(fmt.Sprintf("i.bruteForce\t%s\t%s", hexOrDash(s), hexOrDash(sub)),
